@@ -96,6 +96,7 @@ def plan(prop):
         obs.append((prag, lambda ctx: po.ob_statistic_sum(ctx)))
         for how in ('location', 'disjoint', 'any'):
             obs.append((prag, lambda ctx, how=how: po.ob_job_tag(ctx, how)))
+        obs.append((prag, lambda ctx: po.ob_match_place(ctx)))
         obs.append((core, lambda ctx: co.ob_total_cost_fold(ctx, 16, rates)))
     if prop == 'C20':
         obs.append((core, lambda ctx: co.ob_simple_objectives(ctx)))
